@@ -25,6 +25,7 @@ MEAS_DIAG = [
 OPTS = [
     {}, {'repeat_limit': 1}, {'repeat_limit': 2}, {'repeat_limit': 4}, {'force_repeat': True}, {'repeat_on_measurement_fail': True},
     {'repeat_on_timeout': True}, {'stop_on_measurement_fail': True}, {'run_if': 'false'}, {'run_if': 'true'}, {'run_if': 'raise'},
+    {'run_if': 'once'}, {'run_if': 'once', 'force_repeat': True}, {'run_if': 'once', 'repeat_on_measurement_fail': True},
 ]
 
 
